@@ -230,3 +230,80 @@ func (pr *vfProxyRun) learnQuiet(b *vfBench, rc *vfRecipe, layout int) {
 		b.inject(1, 0, g.ip("10.0.1.1"), 5070, mk(g.ip("10.0.1.5")), nil)
 	}
 }
+
+// TestVfUdpRepeat: C10 at the level of what is RELAYED - the very same datagram processed again (a retransmission) must be
+// handled exactly as the first time: nothing the proxy did to an earlier datagram may show in how a later one is
+// treated.  Datagrams whose routing lists come comma-joined on one line or one entry per line, responses and requests;
+// every case uses texts (branches) no earlier case has used.  Twin relation (JudgeC17) between the first processing and
+// each later one; reported for C10.
+func TestVfUdpRepeat(t *testing.T) {
+	tr := vfOpenTrace(t, "VERIF_TRACE")
+	defer tr.Close()
+	pr := &vfProxyRun{t: t, tr: tr, branches: map[string]bool{}}
+	pr.g = &vfGamma{base: vfIPBase(), rnd: vfRand(27), decor: 1}
+	pr.sinks(0)
+	g := pr.g
+	cfg := vfBenchCfg{Names: vfNamesCfg, Hosts: g.hosts(), Static: []vfRouteCfg{{"udp", "e.x", g.ip("10.0.1.4") + ":6001"}},
+		Proxies: []vfPCfg{{Addr: g.ip("10.0.0.1"), Trans: []vfTCfg{{"UDP", 5060, false}, {"TCP", 5061, false}}, Recv: true,
+			Backends: []string{g.ip("10.0.4.1") + ":5060"}}}} // ONE backend: which member of a rotation gets a request legitimately depends on history (C05)
+	b := vfGetBench(t, cfg)
+	ncase := 0
+	nrep := vfEnvInt("VERIF_NREPEAT", 3)
+	for round := 0; round < vfEnvInt("VERIF_NROUND", 6); round++ {
+		for li, layout := range []string{"joined3", "joined2+1", "split"} {
+			for ki, kind := range []string{"resp200", "resp180", "req-static", "req-backend"} {
+				id := fmt.Sprintf("rep%d.%d.%d", round, li, ki)
+				u := fmt.Sprintf("%d-%d-%d", round, li, ki)
+				vias := []string{fmt.Sprintf("SIP/2.0/UDP %s:5060;branch=z9hG4bKown%s", g.ip("10.0.0.1"), u),
+					fmt.Sprintf("SIP/2.0/UDP %s:5062;branch=z9hG4bKc%s;rport", g.ip("10.0.2.1"), u), fmt.Sprintf("SIP/2.0/UDP %s:5064;branch=z9hG4bKd%s", g.ip("10.0.2.2"), u)}
+				routes := []string{fmt.Sprintf("<sip:%s:5060;lr>", g.ip("10.0.0.1")), fmt.Sprintf("<sip:%s:5070;lr>", g.ip("10.0.1.1")), fmt.Sprintf("<sip:%s:5080;lr>", g.ip("10.0.1.7"))}
+				lay := func(name string, ents []string) []vfHdr {
+					switch layout {
+					case "joined3":
+						return []vfHdr{{name, strings.Join(ents, ", ")}}
+					case "joined2+1":
+						if len(ents) < 3 {
+							return []vfHdr{{name, strings.Join(ents, ",")}}
+						}
+						return []vfHdr{{name, strings.Join(ents[:2], ",")}, {name, ents[2]}}
+					}
+					var r []vfHdr
+					for _, e := range ents {
+						r = append(r, vfHdr{name, e})
+					}
+					return r
+				}
+				var raw []byte
+				srcIP, srcPort := g.ip("10.0.5.5"), 24000
+				rest := []vfHdr{{"From", "<sip:a@a.example>;tag=f" + u}, {"To", "<sip:b@e.x>;tag=t" + u}, {"Call-ID", "rep-" + u}}
+				switch kind {
+				case "resp200", "resp180":
+					hs := append(lay("Via", vias), rest...)
+					hs = append(hs, vfHdr{"CSeq", "1 INVITE"}, vfHdr{"Content-Length", "0"})
+					raw = vfRender(map[string]string{"resp200": "SIP/2.0 200 OK", "resp180": "SIP/2.0 180 Ringing"}[kind], hs, nil)
+					srcIP, srcPort = g.ip("10.0.1.1"), 5070
+				case "req-static":
+					hs := append(lay("Via", vias[1:]), vfHdr{"Max-Forwards", "70"})
+					hs = append(hs, lay("Route", routes)...)
+					hs = append(append(hs, rest...), vfHdr{"CSeq", "2 MESSAGE"}, vfHdr{"Content-Length", "0"})
+					raw = vfRender("MESSAGE sip:b@e.x SIP/2.0", hs, nil)
+				default:
+					hs := append(lay("Via", vias[1:]), vfHdr{"Max-Forwards", "70"}, vfHdr{"Record-Route", fmt.Sprintf("<sip:%s:5060;lr>, <sip:%s:5060;lr>", g.ip("10.0.3.1"), g.ip("10.0.3.2"))})
+					hs = append(append(hs, rest[0], vfHdr{"To", "<sip:service@svc.example.com>"}, rest[2]), vfHdr{"CSeq", "3 OPTIONS"}, vfHdr{"Content-Length", "0"})
+					raw = vfRender("OPTIONS sip:service@svc.example.com SIP/2.0", hs, nil)
+				}
+				b.reset(t)
+				first, pm0, st0 := pr.half(b, 0, 0, srcIP, srcPort, raw)
+				for k := 2; k <= nrep; k++ {
+					again, pm, st := pr.half(b, 0, 0, srcIP, srcPort, raw)
+					if pm0 != "" {
+						pm = pm0
+					}
+					tr.Emit(vfM{"ev": "twin", "case": id, "cls": fmt.Sprintf("same-datagram-again kind=%s layout=%s processing=%d", kind, layout, k), "a": first, "b": again, "panic": pm, "stuck": st || st0})
+				}
+				ncase++
+			}
+		}
+	}
+	fmt.Printf("VF cases=%d events=%d\n", ncase, tr.n)
+}
